@@ -35,6 +35,17 @@ def drive(ctx, mode, n, out_path, beh_path=None, extra_env=None):
     return lines
 
 
+def model_unit_check(ctx):
+    """Design leg: unit facts of the kernel model and of PolicySem (specs/nf/MC_NfUnit.tla, ASSUMEs)."""
+    try:
+        r = core.tlc(SPECDIR, "MC_NfUnit", "MC_NfUnit.cfg", workers=1, timeout=300)
+    except HarnessError as e:
+        raise HarnessError("kernel model unit facts failed (model problem, not a code verdict): %s" % str(e)[-1500:])
+    if "NFUNIT ok" not in r.out or r.violated:
+        raise HarnessError("kernel model unit facts failed:\n" + r.out[-2000:])
+    ctx.notes["model_unit_facts"] = "specs/nf/MC_NfUnit.tla: all ASSUMEs hold (%.0fs)" % r.wall
+
+
 def _tlc_walk(module, cfg, lines, tag, timeout, keep):
     path = os.path.join(keep, "cases-%s.ndjson" % tag)
     with open(path, "w") as f:
@@ -46,16 +57,20 @@ def _tlc_walk(module, cfg, lines, tag, timeout, keep):
     return r
 
 
-def walk_parallel(ctx, module, cfg, lines, chunks=4, timeout=900):
-    """-> (rejected t ids, list of NPROBE int-tuples, tlc wall seconds, states)"""
+def walk_parallel(ctx, module, cfg, lines, chunks=4, timeout=900, max_bytes=6 << 20):
+    """-> (rejected t ids, list of NPROBE int-tuples, tlc wall seconds, states).
+    The case file is cut into interleaved parts (at least `chunks`, more when a part would exceed max_bytes: TLC holds
+    the whole part as TLA+ values); at most 4 TLC processes run at a time."""
     k = max(1, min(chunks, len(lines) // 8 or 1))
+    total = sum(len(l) for l in lines)
+    k = max(k, -(-total // max_bytes))
     parts = [lines[i::k] for i in range(k)]
-    with concurrent.futures.ThreadPoolExecutor(max_workers=k) as ex:
+    with concurrent.futures.ThreadPoolExecutor(max_workers=min(k, 4)) as ex:
         futs = [ex.submit(_tlc_walk, module, cfg, part, "%s-%d" % (module, i), timeout, ctx.work) for i, part in enumerate(parts)]
         res = [f.result() for f in futs]
     rejected, probes, wall, states = [], [], 0.0, 0
     for r in res:
-        wall = max(wall, r.wall)
+        wall += r.wall / min(k, 4)
         states += r.distinct
         for m in re.finditer(r'<<"REJECT", (-?\d+)>>', r.out):
             rejected.append(int(m.group(1)))
